@@ -142,8 +142,8 @@ type byzRun struct {
 }
 
 func unitC07byz(e common.Env, p *common.Part) {
-	p.Rule = "Byzantine members are one or more real disc.Member instances under the same identifier with filtered inputs and re-routed outputs, following targeted plans under which honest members can still complete: partition-and-lie (one Byzantine instance per honest group, partition healed at a PRNG instant), shadow coalition (Byzantine instances that hear only each other and a phantom of a silent member), two-faced without partition, outsider and member replaying every captured transmission under their own identity, response flood (several instances of one identifier answer replayed queries with different views after the victim completed), late surplus announcer (one member more than expected joins at a PRNG instant around the moment the views converge) surplus at a decision point (the victim is held at a verif point of Synchronize while the surplus member announces itself) and view rewrite at a decision point (while the victim is held there, a second instance of a session member that only ever heard silent phantoms announces a different view of the same length to it), mirror (a member whose every transmission to X carries, under its real tag, exactly the list X itself announced or queried last) and crafted lists (its lists are replaced by permuted, duplicated, truncated, padded, empty or 30000-entry lists) and confusable views (its announcements carry the destination's own latest list with entries replaced by values that a sloppy comparison or encoding could confuse with them: the same decimal digits split elsewhere, identifiers from the UTF-16 surrogate range, the same low byte, the same high byte, byte-swapped; its responses mirror the queried list); distinct key = (plan, parameters, seed); non-trivial when an honest member completed or a Byzantine transmission was processed by an honest member"
-	plans := []string{"partition-and-lie", "shadow-coalition", "two-faced", "replay", "response-flood", "shadow-coalition", "partition-and-lie", "late-surplus-announcer", "surplus-at-decision-point", "surplus-at-decision-point", "view-rewrite-at-decision-point", "view-rewrite-at-decision-point", "mirror", "crafted-lists", "confusable-views", "confusable-views"}
+	p.Rule = "Byzantine members are one or more real disc.Member instances under the same identifier with filtered inputs and re-routed outputs, following targeted plans under which honest members can still complete: partition-and-lie (one Byzantine instance per honest group, partition healed at a PRNG instant), shadow coalition (Byzantine instances that hear only each other and a phantom of a silent member), two-faced without partition, outsider and member replaying every captured transmission under their own identity, response flood (several instances of one identifier answer replayed queries with different views after the victim completed), late surplus announcer (one member more than expected joins at a PRNG instant around the moment the views converge) surplus at a decision point (the victim is held at a verif point of Synchronize while the surplus member announces itself) and view rewrite at a decision point (while the victim is held there, a second instance of a session member that only ever heard silent phantoms announces a different view of the same length to it), mirror (a member whose every transmission to X carries, under its real tag, exactly the list X itself announced or queried last) and crafted lists (its lists are replaced by permuted, duplicated, truncated, padded, empty or 30000-entry lists) and confusable views (its announcements carry the destination's own latest list with entries replaced by values that a sloppy comparison or encoding could confuse with them: the same decimal digits split elsewhere, identifiers from the UTF-16 surrogate range, the same low byte, the same high byte, byte-swapped; its responses mirror the queried list) and answering for a silent member (a configured member that talks to the Byzantine member only; the Byzantine member re-sends everything it receives from it to the honest members over its own link); distinct key = (plan, parameters, seed); non-trivial when an honest member completed or a Byzantine transmission was processed by an honest member"
+	plans := []string{"partition-and-lie", "shadow-coalition", "two-faced", "replay", "response-flood", "shadow-coalition", "partition-and-lie", "late-surplus-announcer", "surplus-at-decision-point", "surplus-at-decision-point", "view-rewrite-at-decision-point", "view-rewrite-at-decision-point", "mirror", "crafted-lists", "confusable-views", "confusable-views", "answering-for-a-silent-member"}
 	n := e.Pick(400, 6000)
 	for i := 0; i < n; i++ {
 		if !e.Mine(i) || p.ViolationCount() >= 3 {
@@ -350,6 +350,40 @@ func runByzPlan(plan string, idx int, rng *rand.Rand) byzRun {
 			net.sent.Delete(ph) // never transmitted towards an honest member
 		}
 		return byzRun{net: net, expected: E, note: fmt.Sprintf("expected=%d session=%v victim=%d held at %s=%v rewriting member=%d phantoms=%v announcements to the victim=%d", E, session, V, point, held, b, phantoms, atomic.LoadInt32(&told))}
+	case "answering-for-a-silent-member":
+		// honest callers H, Byzantine b (a real instance that behaves honestly itself), and a configured member ph that takes part but
+		// whose transmissions reach b only. b re-sends every message it receives from ph to the honest members over ITS OWN link: the
+		// tag in it is ph's, the transport source is b. expected = everybody incl. ph, so the honest members can only complete if
+		// they accept b's word for ph.
+		nh := 1 + rng.Intn(3)
+		ids := pickIDs(rng, nh+2, idx%2 == 1)
+		rng.Shuffle(len(ids), func(i, j int) { ids[i], ids[j] = ids[j], ids[i] })
+		hs, b, ph := ids[:nh], ids[nh], ids[nh+1]
+		universe := append([]uint16{}, ids...)
+		sort.Slice(universe, func(i, j int) bool { return universe[i] < universe[j] })
+		expected := nh + 2
+		net := newDnet(universe, rng)
+		var relayed int32
+		net.tap = func(src, dst uint16, data []byte) {
+			if src == ph && dst == b {
+				for _, h := range hs {
+					atomic.AddInt32(&relayed, 1)
+					go net.inject(b, h, data)
+				}
+			}
+		}
+		ctx, cancel := context.WithTimeout(context.Background(), 150*time.Millisecond)
+		defer cancel()
+		for _, h := range hs {
+			net.start(ctx, &wg, net.add(h, "honest", true), topic, expected, interval)
+		}
+		net.start(ctx, &wg, net.add(b, "byz-relay", false), topic, expected, interval)
+		phi := net.add(ph, "silent-member", false)
+		phi.speaksTo = func(dst uint16) bool { return dst == b }
+		net.start(ctx, &wg, phi, topic, expected, interval)
+		wg.Wait()
+		net.sent.Delete(ph) // it never transmitted towards an honest member
+		return byzRun{net: net, expected: expected, note: fmt.Sprintf("honest=%v byz=%d silent member=%d expected=%d relayed transmissions=%d", hs, b, ph, expected, atomic.LoadInt32(&relayed))}
 	case "confusable-views":
 		// Victim V, honest others, Byzantine b, silent configured members Z. b's announcements to X carry X's latest list in which
 		// entries are replaced by values that could be confused with them; b's responses carry exactly the list X queried.
